@@ -3,6 +3,7 @@ package main
 import (
 	"fmt"
 	"go/ast"
+	"go/parser"
 	"go/token"
 	"go/types"
 	"regexp"
@@ -2204,4 +2205,200 @@ func init() {
 	register(&Rule{ID: "C10.R6", Prop: "C10", Floor: 1,
 		Doc: "no delegation cycle: in the static call graph of the module restricted to calls that hand on only the caller's own receiver and parameters (unassigned) or constants, there is no cycle — such a cycle cannot make progress and ends in a Go stack overflow, which no recover barrier intercepts",
 		Run: runDelegationCycle})
+}
+
+// ---- C14.R9: a character is not cut down to its low byte ----
+//
+// Strings are sequences of code points. Converting a rune (or an int holding one) to a byte keeps the low eight bits:
+// 'š' (U+0161) becomes 'a'. Such a conversion is meaningful only for a value known to be below 256 (usually below
+// utf8.RuneSelf). Decided over the string code (the files of C14.R1, package parser's literal reader and the builtins):
+// every conversion byte(x)/uint8(x) of a non-constant rune-typed x is governed by a test bounding x below a constant
+// of at most 256 — an enclosing if or && operand, or an earlier test that leaves.
+const runeCutExample = `package p
+func f(c rune, tbl *[256]bool) bool {
+	if c < 128 {
+		return tbl[byte(c)]
+	}
+	return tbl[byte(c)]
+}`
+
+func runeToByteFindings(info *types.Info, body *ast.BlockStmt) (bad []*ast.CallExpr, all int) {
+	isRune := func(e ast.Expr) bool {
+		tv, ok := info.Types[e]
+		if !ok || tv.Value != nil {
+			return false
+		}
+		b, ok := tv.Type.Underlying().(*types.Basic)
+		return ok && (b.Kind() == types.Int32 || b.Kind() == types.UntypedRune)
+	}
+	bounded := func(cond ast.Expr, name string, neg bool) bool {
+		res := false
+		var walk func(e ast.Expr, neg bool)
+		walk = func(e ast.Expr, neg bool) {
+			e = unparen(e)
+			if u, ok := e.(*ast.UnaryExpr); ok && u.Op == token.NOT {
+				walk(u.X, !neg)
+				return
+			}
+			be, ok := e.(*ast.BinaryExpr)
+			if !ok {
+				return
+			}
+			if be.Op == token.LAND && !neg || be.Op == token.LOR && neg {
+				walk(be.X, neg)
+				walk(be.Y, neg)
+				return
+			}
+			op, x, k := be.Op, be.X, be.Y
+			if exprStr(unparen(be.Y)) == name {
+				op, x, k = flipOp(be.Op), be.Y, be.X
+			}
+			if exprStr(unparen(x)) != name {
+				return
+			}
+			kv, ok := constInt(info, k)
+			if !ok {
+				return
+			}
+			if neg {
+				op = map[token.Token]token.Token{token.LSS: token.GEQ, token.LEQ: token.GTR, token.GTR: token.LEQ, token.GEQ: token.LSS}[op]
+			}
+			if op == token.LSS && kv <= 256 || op == token.LEQ && kv <= 255 {
+				res = true
+			}
+		}
+		walk(cond, neg)
+		return res
+	}
+	var stack []ast.Node
+	ast.Inspect(body, func(n ast.Node) bool {
+		if n == nil {
+			stack = stack[:len(stack)-1]
+			return true
+		}
+		stack = append(stack, n)
+		call, ok := n.(*ast.CallExpr)
+		if !ok || len(call.Args) != 1 {
+			return true
+		}
+		tv, ok := info.Types[call.Fun]
+		if !ok || !tv.IsType() {
+			return true
+		}
+		if b, ok := tv.Type.Underlying().(*types.Basic); !ok || b.Kind() != types.Uint8 {
+			return true
+		}
+		if !isRune(call.Args[0]) {
+			return true
+		}
+		all++
+		name := exprStr(unparen(call.Args[0]))
+		guarded := false
+		for i := len(stack) - 2; i >= 0 && !guarded; i-- {
+			child := stack[i+1]
+			switch par := stack[i].(type) {
+			case *ast.BinaryExpr:
+				if par.Y == child && par.Op == token.LAND && bounded(par.X, name, false) {
+					guarded = true
+				}
+				if par.Y == child && par.Op == token.LOR && bounded(par.X, name, true) {
+					guarded = true
+				}
+			case *ast.IfStmt:
+				if par.Body == child && bounded(par.Cond, name, false) {
+					guarded = true
+				}
+				if par.Else == child && bounded(par.Cond, name, true) {
+					guarded = true
+				}
+			case *ast.BlockStmt:
+				for _, st := range par.List {
+					if st == child {
+						break
+					}
+					if is, ok := st.(*ast.IfStmt); ok && is.Else == nil && blockTerminates(is.Body) && bounded(is.Cond, name, true) {
+						guarded = true
+					}
+				}
+			case *ast.CaseClause:
+				for _, e := range par.List {
+					if child != ast.Node(e) && bounded(e, name, false) {
+						guarded = true
+					}
+				}
+			case *ast.FuncLit:
+				i = -1
+			}
+		}
+		if !guarded {
+			bad = append(bad, call)
+		}
+		return true
+	})
+	return
+}
+
+// conversions of the reviewed tree that are meant to keep the low byte
+var confirmedRuneCut = map[string]string{
+	"parser.DecodeEscape|byte(cout)": "an octal escape in a bytes literal: three octal digits reach 0o777 and Python 3.4 keeps the low eight bits (b'\\777' == b'\\xff'); the value is a number written by the programmer, not a character of the text",
+}
+
+func runRuneNotCut(c *Ctx, r *Rep) {
+	// positive example: the matcher must accept the guarded conversion and flag the other
+	fset := token.NewFileSet()
+	ef, err := parser.ParseFile(fset, "example.go", runeCutExample, 0)
+	if err != nil {
+		r.undecided("runecut|selftest", token.NoPos, "example does not parse: %v", err)
+		return
+	}
+	einfo := &types.Info{Types: map[ast.Expr]types.TypeAndValue{}, Uses: map[*ast.Ident]types.Object{}, Defs: map[*ast.Ident]types.Object{}}
+	if _, err := (&types.Config{}).Check("p", fset, []*ast.File{ef}, einfo); err != nil {
+		r.undecided("runecut|selftest", token.NoPos, "example does not type-check: %v", err)
+		return
+	}
+	if bad, all := runeToByteFindings(einfo, ef.Decls[0].(*ast.FuncDecl).Body); len(bad) != 1 || all != 2 {
+		r.undecided("runecut|selftest", token.NoPos, "the matcher finds %d/%d conversions in its own example, expected 1/2", len(bad), all)
+		return
+	}
+	r.okTrivial("runecut|selftest", token.NoPos, "the matcher accepts the guarded conversion of its built-in example and flags the unguarded one")
+	for _, tg := range []struct{ rel, file string }{{"py", "string.go"}, {"py", "bytes.go"}, {"parser", "stringescape.go"}, {"parser", "lexer.go"}, {"stdlib/builtin", "builtin.go"}} {
+		p := c.Pkg(tg.rel)
+		if p == nil {
+			continue
+		}
+		for _, f := range c.Files(p) {
+			if fileOf(c, f.Pos()) != tg.file {
+				continue
+			}
+			for _, d := range f.Decls {
+				fd, ok := d.(*ast.FuncDecl)
+				if !ok || fd.Body == nil {
+					continue
+				}
+				bad, all := runeToByteFindings(p.TypesInfo, fd.Body)
+				if all == 0 {
+					continue
+				}
+				id := declID(p, fd)
+				r.analysed(id)
+				if len(bad) == 0 {
+					r.ok("runecut|"+id, fd.Pos(), "%d conversion(s) of a character to a byte, each under a test bounding it below 256", all)
+					continue
+				}
+				for _, b := range bad {
+					if why, ok := confirmedRuneCut[id+"|"+exprStr(b)]; ok {
+						r.okTrivial("runecut|"+id+"|"+exprStr(b), b.Pos(), "reviewed: %s", why)
+						continue
+					}
+					r.bad("runecut|"+id+"|"+exprStr(b), b.Pos(), "`%s` cuts a character down to its low byte without a test bounding it below 256: every character whose low byte equals the intended one is taken for it ('š' U+0161 for 'a'), so searching, stripping or classifying by such a table answers for the wrong characters", exprStr(b))
+				}
+			}
+		}
+	}
+}
+
+func init() {
+	register(&Rule{ID: "C14.R9", Prop: "C14", Floor: 1,
+		Doc: "a character is not cut down to its low byte: in the string code (py/string.go, py/bytes.go, the literal reader and lexer, the builtins) every conversion byte(x) of a non-constant rune-typed x is governed by a test bounding x below a constant of at most 256 (enclosing if, && operand, or an earlier test that leaves); the matcher is exercised on a built-in example on every run",
+		Run: runRuneNotCut})
 }
